@@ -129,7 +129,8 @@ class Parser(object):
         # try to use the token in the actual lexer over the token that
         # got passed in.
         cur_token = self.lexer.cur_token or token
-        if (cur_token.type == 'DIV' and self.lexer.valid_prev_token and
+        if (cur_token.type in ('DIV', 'DIVEQUAL') and
+                self.lexer.valid_prev_token and
                 self.lexer.valid_prev_token.type in (
                     'RBRACE', 'PLUSPLUS', 'MINUSMINUS')):
             # this is the most pathological case in JavaScript; given
@@ -137,7 +138,8 @@ class Parser(object):
             # below to signal the specific "safe" cases, so we have to
             # wait until such an error to occur for specific tokens and
             # attempt to backtrack here
-            regex_token = self.lexer.backtracked_token(pos=1)
+            regex_token = self.lexer.backtracked_token(
+                pos=len(cur_token.value))
             if regex_token.type == 'REGEX':
                 self.parser.errok()
                 return regex_token
